@@ -148,6 +148,27 @@ func c11ScopeAndSwizzleGrid(c *run.Ctx) {
 			}
 		}
 	}
+	// ---- undeclared types whose names resemble predeclared ones ----
+	tnames := []string{"texturezzz", "texture_2dd", "texture_info", "sampler2", "vec5", "vec2ff", "mat2x5f", "arrayy", "atomicc", "ptrr", "f33", "u32x", "boool", "Texture_2d"}
+	tpos := []struct{ name, src string }{
+		{"param", "fn f(t: TYPE) -> u32 { return 1u; }\n@compute @workgroup_size(1) fn main() { o[0] = 2u; }\n"},
+		{"private-var", "var<private> pv: TYPE;\n@compute @workgroup_size(1) fn main() { o[0] = 2u; }\n"},
+		{"local-var", "@compute @workgroup_size(1) fn main() { var lv: TYPE; o[0] = 2u; }\n"},
+		{"struct-member", "struct S { a: u32, b: TYPE }\n@compute @workgroup_size(1) fn main() { o[0] = 2u; }\n"},
+		{"alias", "alias A = TYPE;\n@compute @workgroup_size(1) fn main() { o[0] = 2u; }\n"},
+		{"array-element", "var<private> av: array<TYPE, 2>;\n@compute @workgroup_size(1) fn main() { o[0] = 2u; }\n"},
+		{"return-type", "fn f() -> TYPE { }\n@compute @workgroup_size(1) fn main() { o[0] = 2u; }\n"},
+		{"pointer-pointee", "fn f(p: ptr<function, TYPE>) { }\n@compute @workgroup_size(1) fn main() { o[0] = 2u; }\n"},
+	}
+	for _, tn := range tnames {
+		for _, tp := range tpos {
+			good := strings.ReplaceAll(tp.src, "TYPE", "u32")
+			if tp.name == "return-type" {
+				good = strings.ReplaceAll(good, "{ }", "{ return 1u; }")
+			}
+			list = append(list, tcase{fmt.Sprintf("type-grid:%s:%s", tn, tp.name), hostilePrelude + strings.ReplaceAll(tp.src, "TYPE", tn), hostilePrelude + good, "undeclared-type"})
+		}
+	}
 	c.Each(len(list), func(i int) (string, run.Outcome) {
 		t := list[i]
 		w := map[string]any{"wgsl": t.bad, "case": t.id}
